@@ -1709,8 +1709,12 @@ class FileBuilder:
         operation = self._operation
         filename = operation.filename
         operation.raised = True
-        self._build_dirs.error_building_file(filename)
+
+        # Remove the file before virtually removing its parent directories.
+        # Otherwise, another thread could see the file, and conclude that the
+        # directories still exist.
         FileBuilder._try_to_remove_file(filename)
+        self._build_dirs.error_building_file(filename)
         logger.warning(
             'Failed to rebuild {:s}, due to an exception'.format(filename))
 
